@@ -39,7 +39,15 @@ func jsonString(name string, max int) (string, string) {
 	val, raw := "", ""
 	for i := 0; i < n; i++ {
 		u := name + "[" + itoa(i) + "]"
-		switch verif.Choice(u+".class", 8) {
+		switch verif.Choice(u+".class", 9) {
+		case 8:
+			// a character outside the basic plane, raw or as the surrogate pair JSON prescribes for \u escapes
+			val += "\U0001F600"
+			if verif.Choice(u+".escaped-surrogates", 2) == 1 {
+				raw += `\ud83d\ude00`
+			} else {
+				raw += "\U0001F600"
+			}
 		case 0:
 			b := verif.Byte(u)
 			// printable ASCII except the characters JSON escapes
@@ -81,7 +89,9 @@ func jsonString(name string, max int) (string, string) {
 	return val, raw
 }
 
-func genJSON(name string, depth int, strLen int) *jval {
+// genJSON: strLen bounds the strings at this level, subStrLen those inside containers; maxLen the
+// number of members of a container at this level (containers below hold up to 2).
+func genJSON(name string, depth int, strLen, subStrLen, maxLen int) *jval {
 	kinds := 5
 	if depth > 0 {
 		kinds = 7
@@ -93,17 +103,17 @@ func genJSON(name string, depth int, strLen int) *jval {
 	case 4:
 		v.str, v.raw = jsonString(name+".s", strLen)
 	case 5:
-		n := verif.Choice(name+".len", 3)
+		n := verif.Choice(name+".len", maxLen+1)
 		for i := 0; i < n; i++ {
-			v.arr = append(v.arr, genJSON(name+"."+itoa(i), depth-1, strLen))
+			v.arr = append(v.arr, genJSON(name+"."+itoa(i), depth-1, subStrLen, subStrLen, 2))
 		}
 	case 6:
-		n := verif.Choice(name+".len", 3)
+		n := verif.Choice(name+".len", maxLen+1)
 		for i := 0; i < n; i++ {
 			k := []string{"k", "key two"}[i]
 			v.keys = append(v.keys, k)
 			v.kraw = append(v.kraw, k)
-			v.obj = append(v.obj, genJSON(name+"."+itoa(i), depth-1, strLen))
+			v.obj = append(v.obj, genJSON(name+"."+itoa(i), depth-1, subStrLen, subStrLen, 2))
 		}
 	}
 	return v
@@ -251,11 +261,18 @@ func eqJSON(got interface{}, v *jval) bool {
 
 // H_C17_json: JSON value -> text (3 layouts) -> parse.Value -> same data.
 func H_C17_json() {
-	depth, strLen := 1, 2
+	// quick: depth 1, strings of up to 2 units at the top level and 1 unit inside containers.
+	// thorough: (a) depth 1 with 2-unit strings everywhere, (b) depth 2 with 1-unit strings and a
+	// single member at the top level.
+	depth, strLen, subStrLen, maxLen := 1, 2, 1, 2
 	if verif.Tier() > 0 {
-		depth, strLen = 2, 2
+		if verif.Choice("family", 2) == 0 {
+			subStrLen = 2
+		} else {
+			depth, strLen, maxLen = 2, 1, 1
+		}
 	}
-	v := genJSON("J", depth, strLen)
+	v := genJSON("J", depth, strLen, subStrLen, maxLen)
 	layout := verif.Choice("layout", 4)
 	var sb strings.Builder
 	c17Gap = 0
